@@ -53,6 +53,8 @@ PF = gen.Profile(
     max_slots=10,
     onstart=True,
 )
+PF_CHAINS = replace(PF, alap_project=False, alap_task=True, alap_chains=True, subslot=False, odd_eff=False, chain=False, onstart=False, deps=0.8, max_tasks=8,
+                    calendars=False, zones=False, crossmid=False)
 PF_WHOLE = replace(PF, subslot=False, odd_eff=False, chain=False, container_deps=True, depth=3, limits=True)
 
 
@@ -111,6 +113,28 @@ def idle_violations(spec, obs, sc_idx=0):
                     return True
         return False
 
+    def team_surplus(members, i, me):
+        """Known finding F04: a member of a *team* task has seconds of slot i that the scheduler's own
+        ledger (slotSecondsUsed) counts as used although no task of that member works then - the team only
+        took the part of the slot that was free on all of its members, because a team-mate had given part of
+        the slot to another task.  The position-less ledger cannot hand the surplus to anybody."""
+        for r in members:
+            blocked = sc.used.get(r, {}).get(i, 0.0) - booked_any.get(r, {}).get(i, 0.0)
+            if blocked <= FREE_TOL:
+                continue
+            for q, x in sc.ledger.get(r, {}).get(i, []):
+                if q == me or x <= EPS:
+                    continue
+                tq = tmap.get(q)
+                if tq is None or len(tq.alloc) < 2:
+                    continue
+                for mate in tq.alloc:
+                    if mate == r:
+                        continue
+                    if any(q2 != q and x2 > EPS for q2, x2 in sc.ledger.get(mate, {}).get(i, [])):
+                        return True
+        return False
+
     def free_secs(members, i):
         """seconds of slot i that are free on every member in the final ledger"""
         return min(obs.gran - booked_any.get(r, {}).get(i, 0.0) for r in members)
@@ -145,8 +169,9 @@ def idle_violations(spec, obs, sc_idx=0):
         name = ".".join(p)
         declared_back = rules.explicit_backward(spec, p)
         if not declared_back and p in back_closure:
-            classes.add("propagated_alap_not_judged")
-            continue
+            # documented ALAP propagation: predecessors of an anchored ALAP task are scheduled backward, too
+            classes.add("propagated_alap")
+            declared_back = True
         if not declared_back:
             # ---- forward ----------------------------------------------------------------
             if t.start is not None:
@@ -182,27 +207,30 @@ def idle_violations(spec, obs, sc_idx=0):
                 kind = "idle_slot_before_end" if fs >= obs.gran - 1e-6 else "idle_part_of_slot_before_end"
                 vs.append(Violation(kind, name,
                                     f"slot {observe.slot_time(obs, i)} is working and has {fs:.0f}s free on {members} but is unused; bound {bound}, task {to.start}..{to.end}",
-                                    {"mode": "asap", "foreign_edge_inside": foreign_edge_inside(members, i, p, False)}))
+                                    {"mode": "asap", "foreign_edge_inside": foreign_edge_inside(members, i, p, False),
+                                     "team_surplus": team_surplus(members, i, p)}))
                 break
             # inside the first booked slot: the task must not wait while its resources are free.
             # Other tasks' shares that end before the bound cannot explain a later start.
             fa, fb = rules.slot_bounds(obs, first)
             lo = max(bound, fa)
             if first >= int(off // gran) and to.start > lo + timedelta(seconds=1) and first != last:
-                others_after = 0.0
+                # the members must be free at the same instants: what blocks the team is the union of the
+                # other tasks' work on any member (each other task counted once, with its largest share)
+                per_task = {}
                 for r in members:
-                    tot = 0.0
                     for q, x in sc.ledger.get(r, {}).get(first, []):
                         if q == p or x <= EPS:
                             continue
                         qo = tm.get(q)
                         if qo is None or qo.end is None or qo.start is None:
-                            tot += x
-                            continue
-                        hi_q = min(qo.end, fb)
-                        lo_q = max(qo.start, fa)
-                        tot += max(0.0, min(x, (hi_q - max(lo, lo_q)).total_seconds()))
-                    others_after = max(others_after, tot)
+                            share = x
+                        else:
+                            hi_q = min(qo.end, fb)
+                            lo_q = max(qo.start, fa)
+                            share = max(0.0, min(x, (hi_q - max(lo, lo_q)).total_seconds()))
+                        per_task[q] = max(per_task.get(q, 0.0), share)
+                others_after = sum(per_task.values())
                 waited = (to.start - lo).total_seconds()
                 if waited > others_after + 1.0:
                     vs.append(Violation("waits_inside_first_slot", name,
@@ -248,7 +276,8 @@ def idle_violations(spec, obs, sc_idx=0):
                         kind = "idle_slot_before_deadline" if fs >= obs.gran - 1e-6 else "idle_part_of_slot_before_deadline"
                         vs.append(Violation(kind, name,
                                             f"slot {observe.slot_time(obs, i)} is working and has {fs:.0f}s free on {members} but is unused; deadline {deadline}, task {to.start}..{to.end}",
-                                            {"mode": "alap", "foreign_edge_inside": foreign_edge_inside(members, i, p, True)}))
+                                            {"mode": "alap", "foreign_edge_inside": foreign_edge_inside(members, i, p, True),
+                                             "team_surplus": team_surplus(members, i, p)}))
                         break
                     skipped_something = True
                 i += 1
@@ -280,6 +309,8 @@ def campaigns(tier):
     return [
         Campaign("subslot", "hyp", evaluate=eval_project, strategy=lambda: gen.project_specs(PF), n=1800 if q else 45000, floor_nontrivial=0.3,
                  describe="D0-D3 with sub-slot efforts, zones, cross-midnight shifts, project- and task-level ALAP"),
+        Campaign("alap_chains", "hyp", evaluate=eval_project, strategy=lambda: gen.project_specs(PF_CHAINS), n=700 if q else 15000,
+                 describe="forward projects with anchored task-level ALAP tasks that have predecessor chains (ALAP propagation)"),
         Campaign("whole", "hyp", evaluate=eval_project, strategy=lambda: gen.project_specs(PF_WHOLE), n=700 if q else 15000,
                  describe="whole-slot efforts, nesting, container edges; limited tasks generated but not judged"),
     ]
